@@ -605,6 +605,50 @@ mod imp {
         }
     }
 
+    pub fn details_mode(input: &Value) -> Value {
+        use rscel::Program;
+        let strs = |k: &str| -> Vec<String> { input[k].as_array().cloned().unwrap_or_default().iter().map(|x| x.as_str().unwrap_or("").to_string()).collect() };
+        let names = strs("names");
+        let src = if names.is_empty() { "1".to_string() } else { names.join(" + ") };
+        let mut p = match Program::from_source(&src) {
+            Ok(p) => p,
+            Err(e) => return json!({"compile_err": format!("{:?}", e)}),
+        };
+        let funcs: Vec<(&'static str, &'static RsCelFunction)> = strs("funcs")
+            .into_iter()
+            .map(|n| {
+                let name: &'static str = Box::leak(n.into_boxed_str());
+                let f: Box<RsCelFunction> = Box::new(|_t, _a| CelValue::from_null());
+                (name, &*Box::leak(f))
+            })
+            .collect();
+        let macros: Vec<(&'static str, &'static RsCelMacro)> = strs("macros")
+            .into_iter()
+            .map(|n| {
+                let name: &'static str = Box::leak(n.into_boxed_str());
+                let m: Box<RsCelMacro> = Box::new(|_i, _t, _c| CelValue::from_null());
+                (name, &*Box::leak(m))
+            })
+            .collect();
+        // an empty binding set apart from what the scenario binds (the default functions/macros do not
+        // collide with the generated names)
+        let mut bind = BindContext::new();
+        for n in strs("params") {
+            bind.bind_param(&n, CelValue::from_int(1));
+        }
+        for (n, f) in funcs.iter() {
+            bind.bind_func(n, *f);
+        }
+        for (n, m) in macros.iter() {
+            bind.bind_macro(n, *m);
+        }
+        let before: Vec<String> = { let mut v: Vec<String> = p.params().iter().map(|x| x.to_string()).collect(); v.sort(); v };
+        p.details_mut().filter_from_bindings(&bind);
+        let mut after: Vec<String> = p.params().iter().map(|x| x.to_string()).collect();
+        after.sort();
+        json!({"reported": before, "filtered": after})
+    }
+
     pub fn main() {
         let mode = std::env::args().nth(1).unwrap_or_default();
         let mut s = String::new();
@@ -620,6 +664,7 @@ mod imp {
                     "resolve" => guarded(|| resolve_mode(&v)),
                     "serde" => guarded(|| serde_mode(&v)),
                     "token" => guarded(|| token_mode(&v)),
+                    "details" => guarded(|| details_mode(&v)),
                     _ => json!({"error": "mode"}),
                 }
             })
